@@ -71,7 +71,7 @@ pub fn run(ctx: &Ctx, replay: Option<&J>) -> CheckResult {
         "every df! field found in /repo/src/df/dfs.rs ({} fields) x bit patterns: ALL 2^w patterns for w<={} (enumerated, distinct by construction); \
          for wider fields boundary windows of 2^{} patterns around 0, the sign boundary and the top, one-hot/one-cold patterns, all patterns of the form (a<<s)+d (every shift s, up to 2^10 high parts a, |d|<=16: limb/mantissa \
          boundaries, prefix masks) and 2^{} seeded random patterns (these samples are not counted as distinct); the three hand-written bias codecs (1059/1065: 2^14, 1230: 2^16 patterns) enumerated completely \
-         through one-entry frames and the public API; MSM frames of all 49 types with random raw patterns in every satellite / cell field (message level: decode -> encode must reproduce the frame). oracle: pattern -> own bit writer -> decode -> encode -> own bit reader returns the pattern (only the \
+         through one-entry frames and the public API; MSM frames of all 49 types with random raw patterns in every satellite / cell field (message level: decode -> encode must reproduce the frame). oracle: pattern -> own bit writer -> decode -> encode (over a buffer pre-filled with 0xFF for even and 0x00 for odd patterns; the extreme patterns over both) -> own bit reader returns the pattern (only the \
          14 pinned sign-magnitude fields may map 10..0 to 0), written width == declared width, value finite, optional fields have exactly one absent pattern \
          which is what 'absent' encodes to. every pattern is non-trivial",
         FIELDS.len(),
